@@ -519,6 +519,16 @@ open VlsModel.Gen.FnWireModel
 theorem C19_fn_wrappers {T W : Type} (t : T) (w : W) :
     SerBoltTlvWriteWrap.«from» t = t ∧ LdkWriterWriteAdaptor.flush w = .ok w := ⟨rfl, rfl⟩
 
+/-- **C19_fn_adaptor.** `LdkWriterWriteAdaptor` (the `Write` through which `consensus_encode` reaches an LDK `Writer`) hands
+    every buffer unchanged to the wrapped writer's `write_all`, exactly once; `write` reports the whole buffer as written.
+    (The newtype over `&mut W` is its component: the adaptor adds, drops and reorders no byte.) -/
+theorem C19_fn_adaptor {W : Type} (wa : W → List Nat → Rs.M W) (w : W) (buf : List Nat) :
+    LdkWriterWriteAdaptor.write_all wa w buf = wa w buf ∧
+    LdkWriterWriteAdaptor.write wa w buf = (do let w' ← wa w buf; pure (w', buf.length)) := by
+  constructor <;> simp only [LdkWriterWriteAdaptor.write_all, LdkWriterWriteAdaptor.write] <;> cases wa w buf <;> rfl
+
+example : LdkWriterWriteAdaptor.write wAll [1] [2, 3] = .ok ([1, 2, 3], 2) := rfl
+
 end WireModel
 
 end VlsModel.Props.C19Fn
